@@ -10,8 +10,8 @@ import traceback
 from . import build
 
 VERIF = build.VERIF
-EVIDENCE = os.path.join(VERIF, 'evidence')
-CEX = os.path.join(VERIF, 'counterexamples')
+EVIDENCE = os.path.join(build.OUT, 'evidence')
+CEX = os.path.join(build.OUT, 'counterexamples')
 KNOWN = os.path.join(VERIF, 'known_findings.json')
 
 
